@@ -63,7 +63,7 @@ prop('C01',
      obligations=['lemma.L3.*', 'lemma.L5.*', 'lemma.L6.*', 'lemma.L7.*', 'keys.ctx_key.*', 'keys.range_end.next_ctx', 'keys.iter_ctx.*', 'keys.iter_all.*',
                   'store.iter_frames.*', 'store.read_sync.*', 'store.get.*', 'store.append.fresh_id', 'store.append.frame_as_given',
                   'store.append.stored', 'store.insert_frame.three_entries', 'store.remove.three_tombstones',
-                  'store_ops.Store::iter_frames.body', 'store_ops.Store::get.body', 'store_ops.read_sync_filter.body',
+                  'store_ops.Store::iter_frames.body', 'store_ops.Store::get.body', 'store_ops.read_sync_filter.body', 'store_ops.read_sync_chain.body',
                   'read.history.*', 'read_ops.read_history.body',
                   # "not since ... evicted": which frames the head:N collector may and must evict
                   'store.gc_head.*', 'store_ops.gc_head_arm.body'],
